@@ -9,6 +9,7 @@ package main
 import (
 	"encoding/json"
 	"fmt"
+	"math/rand"
 	"strings"
 
 	"verifharness/mon"
@@ -124,6 +125,72 @@ func c06Shapes(cred, other string) []c06Shape {
 	return s
 }
 
+const c06Alphabet = "ABCDEFGHIJKLMNOPQRSTUVWXYZabcdefghijklmnopqrstuvwxyz0123456789-_.=+/:"
+
+func c06RandSecret(rng *rand.Rand) string {
+	switch rng.Intn(12) {
+	case 0:
+		return "Bearer" + fmt.Sprint(rng.Intn(100)) // a secret that looks like a scheme
+	case 1:
+		return "ключ-" + fmt.Sprint(rng.Intn(1000))
+	case 2:
+		return string(c06Alphabet[rng.Intn(len(c06Alphabet))]) // one character
+	}
+	n := 2 + rng.Intn(38)
+	b := make([]byte, n)
+	for i := range b {
+		b[i] = c06Alphabet[rng.Intn(len(c06Alphabet))]
+	}
+	return string(b)
+}
+
+// c06NearMisses: strings one edit away from the credential, in both canonical positions. None
+// of them equals the credential, so every one must be rejected (the classification below is
+// the same generic one: a request carries a credential only as a whitespace-delimited whole).
+func c06NearMisses(rng *rand.Rand, cred string) []c06Shape {
+	rs := []rune(cred)
+	var ms []string
+	for k := 0; k < 6; k++ {
+		i := rng.Intn(len(rs))
+		c := rune(c06Alphabet[rng.Intn(len(c06Alphabet))])
+		switch rng.Intn(6) {
+		case 0: // delete
+			ms = append(ms, string(rs[:i])+string(rs[i+1:]))
+		case 1: // insert
+			ms = append(ms, string(rs[:i])+string(c)+string(rs[i:]))
+		case 2: // substitute
+			if c != rs[i] {
+				ms = append(ms, string(rs[:i])+string(c)+string(rs[i+1:]))
+			}
+		case 3: // case flip
+			if f := []rune(strings.ToUpper(string(rs[i]))); string(f) != string(rs[i]) {
+				ms = append(ms, string(rs[:i])+string(f)+string(rs[i+1:]))
+			} else if f := []rune(strings.ToLower(string(rs[i]))); string(f) != string(rs[i]) {
+				ms = append(ms, string(rs[:i])+string(f)+string(rs[i+1:]))
+			}
+		case 4: // prefix / doubled
+			ms = append(ms, string(rs[:i]), cred+cred)
+		case 5: // reversed
+			rev := make([]rune, len(rs))
+			for x := range rs {
+				rev[len(rs)-1-x] = rs[x]
+			}
+			if string(rev) != cred {
+				ms = append(ms, string(rev))
+			}
+		}
+	}
+	var out []c06Shape
+	for n, m := range ms {
+		if m == cred || m == "" {
+			continue
+		}
+		out = append(out, c06Shape{fmt.Sprintf("nearmiss-bearer-%d", n), map[string][]string{"Authorization": {"Bearer " + m}}},
+			c06Shape{fmt.Sprintf("nearmiss-apikey-%d", n), map[string][]string{"X-API-Key": {m}}})
+	}
+	return out
+}
+
 type c06Probe struct {
 	route  int
 	method string
@@ -134,7 +201,7 @@ type c06Probe struct {
 
 func checkC06(tier string) {
 	r := mon.New("C06", tier, "exploration")
-	r.Rule = "credential configurations GLYPH_JWT_SECRET x GLYPH_API_KEYS (6 x 6 incl. unset/blank/padded) x declared auth type {jwt, apikey, JWT, ApiKey, basic, oauth} x ~33 header shapes (absent, wrong, prefix/suffix of the secret, other type's credential, duplicates, casing, whitespace, NUL, 10 kB, forged forwarding headers, canonical forms) x {GET, POST} x {compiled, interpreted, interpreted+provider side-effect counter}; lockout histories of k failures then a valid request; distinct = (config, mode, route, shape); non-trivial = a protected route with a non-absent header shape or an unset/blank configuration"
+	r.Rule = "credential configurations GLYPH_JWT_SECRET x GLYPH_API_KEYS (6 x 6 incl. unset/blank/padded) x declared auth type {jwt, apikey, JWT, ApiKey, basic, oauth} x ~33 header shapes (absent, wrong, prefix/suffix of the secret, other type's credential, duplicates, casing, whitespace, NUL, 10 kB, forged forwarding headers, canonical forms) x {GET, POST} x {compiled, interpreted, interpreted+provider side-effect counter}; plus PRNG-generated secrets / key lists (1-40 characters over letters, digits and -_.=+/:, scheme look-alikes, non-ASCII) probed with near-miss mutations of each credential (one deletion / insertion / substitution / case flip, prefixes, doubled, reversed) in both header positions; lockout histories of k failures then a valid request; distinct = (config, mode, route, shape); non-trivial = a protected route with a non-absent header shape or an unset/blank configuration"
 	str := func(s string) *string { return &s }
 	jwts := []*string{nil, str(""), str(" "), str("s3cr3t"), str(" s3cr3t "), str("a b")}
 	keys := []*string{nil, str(""), str(" , "), str("k1"), str("k1, k2"), str(",k1,")}
@@ -151,8 +218,35 @@ func checkC06(tier string) {
 		ipn++
 		return fmt.Sprintf("10.%d.%d.%d:5000", (ipn>>16)&255, (ipn>>8)&255, ipn&255)
 	}
+	type cfgPair struct {
+		j, k *string
+		rng  *rand.Rand
+	}
+	var pairs []cfgPair
 	for _, j := range jwts {
 		for _, k := range keys {
+			pairs = append(pairs, cfgPair{j, k, nil})
+		}
+	}
+	// PRNG-generated secrets and key lists, probed with near-miss mutations of each credential
+	grng := r.Rand("secrets")
+	for i, n := 0, r.Pick(24, 1500); i < n; i++ {
+		js, ks := c06RandSecret(grng), c06RandSecret(grng)
+		for extra := grng.Intn(3); extra > 0; extra-- {
+			ks += []string{",", ", ", " ,"}[grng.Intn(3)] + c06RandSecret(grng)
+		}
+		pr := cfgPair{&js, &ks, rand.New(rand.NewSource(grng.Int63()))}
+		switch grng.Intn(6) {
+		case 0:
+			pr.j = nil
+		case 1:
+			pr.k = nil
+		}
+		pairs = append(pairs, pr)
+	}
+	{
+		for _, pr := range pairs {
+			j, k := pr.j, pr.k
 			cfg := c06Cfg{j, k}
 			env := map[string]string{"GLYPH_JWT_SECRET": "\x00unset", "GLYPH_API_KEYS": "\x00unset"}
 			if j != nil {
@@ -180,7 +274,11 @@ func checkC06(tier string) {
 						credList = []string{"s3cr3t"} // a decoy: nothing is configured
 					}
 					for ci, cred := range credList {
-						for si, sh := range c06Shapes(cred, other) {
+						shapes := c06Shapes(cred, other)
+						if pr.rng != nil {
+							shapes = append(shapes, c06NearMisses(pr.rng, cred)...)
+						}
+						for si, sh := range shapes {
 							method := "GET"
 							if (si+ci)%5 == 4 {
 								method = "POST"
